@@ -195,6 +195,38 @@ def golden : List KMsg := [
   { apiKey := 14, isRequest := false, lo := 0, hi := 5, flexFrom := some 4, fields := [
       f "ThrottleTimeMs" .int32 1, f "ErrorCode" .int16 0,
       fu "ProtocolType" .string 5, fu "ProtocolName" .string 5, f "Assignment" .bytes 0] },
+  -- ListGroups (16) v0–v2
+  { apiKey := 16, isRequest := true, lo := 0, hi := 2, flexFrom := none, fields := [] },
+  { apiKey := 16, isRequest := false, lo := 0, hi := 2, flexFrom := none, fields := [
+      f "ThrottleTimeMs" .int32 1, f "ErrorCode" .int16 0,
+      f "Groups" (arr [f "GroupId" .string 0, f "ProtocolType" .string 0]) 0] },
+  -- SaslHandshake (17) v0–v1
+  { apiKey := 17, isRequest := true, lo := 0, hi := 1, flexFrom := none, fields := [f "Mechanism" .string 0] },
+  { apiKey := 17, isRequest := false, lo := 0, hi := 1, flexFrom := none, fields := [
+      f "ErrorCode" .int16 0, f "Mechanisms" (.array .string) 0] },
+  -- CreateTopics (19) v0–v4 (v5 of the tree — flexible, extra response fields — is unaudited)
+  { apiKey := 19, isRequest := true, lo := 0, hi := 4, flexFrom := none, fields := [
+      f "Topics" (arr [f "Name" .string 0, f "NumPartitions" .int32 0, f "ReplicationFactor" .int16 0,
+        f "Assignments" (arr [f "PartitionIndex" .int32 0, f "BrokerIds" (.array .int32) 0]) 0,
+        f "Configs" (arr [f "Name" .string 0, fn "Value" .string 0 0]) 0]) 0,
+      f "timeoutMs" .int32 0, f "validateOnly" .bool 1] },
+  { apiKey := 19, isRequest := false, lo := 0, hi := 4, flexFrom := none, fields := [
+      f "ThrottleTimeMs" .int32 2,
+      f "Topics" (arr [f "Name" .string 0, f "ErrorCode" .int16 0, fn "ErrorMessage" .string 1 1]) 0] },
+  -- DeleteTopics (20) v0–v3
+  { apiKey := 20, isRequest := true, lo := 0, hi := 3, flexFrom := none, fields := [
+      f "TopicNames" (.array .string) 0, f "TimeoutMs" .int32 0] },
+  { apiKey := 20, isRequest := false, lo := 0, hi := 3, flexFrom := none, fields := [
+      f "ThrottleTimeMs" .int32 1, f "Responses" (arr [f "Name" .string 0, f "ErrorCode" .int16 0]) 0] },
+  -- InitProducerId (22) v0–v1 (v2+ flexible: unaudited)
+  { apiKey := 22, isRequest := true, lo := 0, hi := 1, flexFrom := none, fields := [
+      fn "TransactionalId" .string 0 0, f "TransactionTimeoutMs" .int32 0] },
+  { apiKey := 22, isRequest := false, lo := 0, hi := 1, flexFrom := none, fields := [
+      f "ThrottleTimeMs" .int32 0, f "ErrorCode" .int16 0, f "ProducerId" .int64 0, f "ProducerEpoch" .int16 0] },
+  -- SaslAuthenticate (36) v0–v1
+  { apiKey := 36, isRequest := true, lo := 0, hi := 1, flexFrom := none, fields := [f "AuthBytes" .bytes 0] },
+  { apiKey := 36, isRequest := false, lo := 0, hi := 1, flexFrom := none, fields := [
+      f "ErrorCode" .int16 0, fn "ErrorMessage" .string 0 0, f "AuthBytes" .bytes 0, f "SessionLifetimeMs" .int64 1] },
   -- ApiVersions (18) v0–v2
   { apiKey := 18, isRequest := true, lo := 0, hi := 2, flexFrom := none, fields := [] },
   { apiKey := 18, isRequest := false, lo := 0, hi := 2, flexFrom := none, fields := [
